@@ -30,3 +30,10 @@ Definition corr_render (c : case) : bool :=
 
 (* the property: identical generated code for every rendering *)
 Definition prop_same (c : case) : bool := forallb (fun p => gobs_eqb (g_obs (c_gen c)) (snd p)) (c_others c).
+
+(* Known finding K16: the SDL reader folds `extend type` blocks only; `extend enum` / `extend input` blocks are
+   dropped.  A case is in the class when the rendering written with those blocks is the ONLY one that differs. *)
+Definition is_ext_rendering (n : string) : bool := String.eqb n "sdl with enum and input extensions".
+Definition known_sdl_nonobject_extension_ignored (c : case) : bool :=
+  negb (forallb (fun p => is_ext_rendering (fst p) || gobs_eqb (g_obs (c_gen c)) (snd p)) (c_others c) &&
+        existsb (fun p => is_ext_rendering (fst p) && negb (gobs_eqb (g_obs (c_gen c)) (snd p))) (c_others c)).
